@@ -16,7 +16,10 @@ for f in sys.argv[2:]:
         p = l.rstrip('\n').split('\t')
         if len(p) < 2:
             continue
-        d = detect.setdefault(p[0], {})
+        import re as _re
+        parts = [x for x in _re.split(r'[-/]', p[0].replace('.patch.diff','')) if x]
+        nm = (parts[-2] + '-' + parts[-1]) if parts[-1] in ('A','B') else parts[-1] + '-A'
+        d = detect.setdefault(nm, {})
         for c in p[1:]:
             q = c.split(':')
             if len(q) >= 2 and q[1] not in ('2',):      # exit 2 = check did not exist in that snapshot
@@ -30,7 +33,7 @@ def first_para(notes, tag):
             return part.strip()[:1500]
     return notes[:1500]
 
-for d in sorted(glob.glob('/tmp/seeded-in/*')):
+for d in sorted(glob.glob('/tmp/seeded-in/*') + glob.glob('/tmp/seeded-in-r2/*')):
     pid = os.path.basename(d)
     notes = open(os.path.join(d, 'notes.md')).read() if os.path.exists(os.path.join(d, 'notes.md')) else ''
     for v in ('A', 'B'):
@@ -50,13 +53,13 @@ for d in sorted(glob.glob('/tmp/seeded-in/*')):
         caught = sorted(k for k, x in det.items() if x['exit'] == 1)
         meta = {
             'name': name,
-            'breaks_property': pid if pid.startswith('C') else {'F1': 'C10', 'F2': 'C10', 'F3': 'C11'}[pid],
-            'origin': 'independent sub-agent given only the property text and a scratch worktree' if pid.startswith('C') else 'reverse of the fix: commit in /repo (re-introduces the genuine defect)',
+            'breaks_property': (pid[2:] if pid.startswith('R2') else pid) if not pid.startswith('F') else {'F1': 'C10', 'F2': 'C10', 'F3': 'C11'}[pid],
+            'origin': ('independent sub-agent given only the property text and a scratch worktree' + (' (second round)' if pid.startswith('R2') else '')) if not pid.startswith('F') else 'reverse of the fix: commit in /repo (re-introduces the genuine defect)',
             'what_and_what_it_needs': first_para(notes, v) if notes else 'see DESIGN.md section 4',
             'confirmed_independently': confirm.get(name, {}),
             'checks_run': 'tools/mutant_matrix.sh: patch applied to a private copy of /repo, every check at quick tier, default seed; replay of the first violation re-run in a fresh process',
             'detected_by': {k: det[k] for k in caught},
-            'not_detected_by_own_property_check': (pid.startswith('C') and pid not in caught),
+            'not_detected_by_own_property_check': ((pid[2:] if pid.startswith('R2') else pid) not in caught) if not pid.startswith('F') else None,
         }
         json.dump(meta, open(os.path.join(out, 'meta.json'), 'w'), indent=1)
         print(name, 'caught by', ','.join(caught) or '-')
